@@ -4,6 +4,7 @@ import re
 
 from ..core import AnalysisError
 from .. import pyfront as P
+from .. import gsa
 
 EXPLANATION = ('Static rules over giscanner/transformer.py and girwriter.py: the unsigned-wrap modulus '
                'of every fixed-width unsigned constant equals its type width; enum members are built '
@@ -19,51 +20,50 @@ def check(ctx):
 
     # ---- R1 width agreement
     r1 = ctx.rule('R1', 'unsigned wrap modulus = width of the guarded fixed-width type', floor=4)
-    f = py.func('transformer', 'Transformer._create_const')
-    seen_widths = set()
-    for n in P.walk_no_nested(f):
-        if not isinstance(n, ast.If):
-            continue
-        widths = set()
-        for c in ast.walk(n.test):
-            if isinstance(c, ast.Compare):
-                for side in [c.left] + c.comparators:
-                    nm = py.const_name(side, tm) or ''
-                    m = re.match(r'TYPE_UINT(\d+)$', nm)
-                    if m:
-                        widths.add(int(m.group(1)))
-        if len(widths) != 1:
-            continue
-        width = widths.pop()
-        seen_widths.add(width)
-        mods = []
-        for st in n.body:
-            for b in ast.walk(st):
-                if isinstance(b, ast.BinOp) and isinstance(b.op, ast.Mod):
-                    v = py.try_fold(b.right, tm)
-                    if isinstance(v, int):
-                        mods.append((b, v))
-        if not mods:
-            r1.fail('TYPE_UINT%d' % width, rel, n.lineno,
-                    'branch guarded by TYPE_UINT%d does not reduce the value modulo 2**%d' % (width, width))
-            continue
-        for b, v in mods:
-            r1.check(v == 2 ** width, 'TYPE_UINT%d' % width, rel, b.lineno,
-                     'constant of type guint%d is wrapped modulo %d (= 2**%s), not 2**%d: value can lie '
-                     'outside its type' % (width, v, (v.bit_length() - 1) if v > 0 and v & (v - 1) == 0 else '?', width),
-                     detail={'guard': P.src(n.test), 'modulus': v})
+    CC = gsa.summarise(ctx, 'transformer', 'Transformer._create_const', opaque=('_create_type_from_base', '_strip_symbol', '_resolve_type_from_ctype'))
+    f = CC.func
+    sym = CC.P(1)
+    consts = [e for e in CC.effects if e.kind == 'call' and e.target == 'ast.Constant' and e.vnode is not None]
+    if len(consts) < 4:
+        raise AnalysisError('_create_const: ast.Constant(...) constructions not found')
+    cinit = py.func('ast', 'Constant.__init__')
+
+    def cargs(e):
+        return P.bind_call(e.vnode, cinit)
+
+    def modulus(n):
+        out = []
+        for b_ in ast.walk(n):
+            if isinstance(b_, ast.BinOp) and isinstance(b_.op, ast.Mod) and not (isinstance(b_.left, ast.Constant) and isinstance(b_.left.value, str)):
+                v = py.try_fold(b_.right, tm)
+                if isinstance(v, int):
+                    out.append(v)
+        return out
+    UEQ = re.compile(r' == ast\.TYPE_UINT(\d+)$|^ast\.TYPE_UINT(\d+) == ')
     for w in (8, 16, 32, 64):
-        if w not in seen_widths:
+        def dec(a_, w=w):
+            mm = UEQ.search(a_)
+            if mm:
+                return int(mm.group(1) or mm.group(2)) == w
+            return None
+        val = dict((a_, dec(a_)) for a_ in CC.atoms() if dec(a_) is not None)
+        if not val:
             r1.fail('TYPE_UINT%d' % w, rel, f.lineno, 'no unsigned-wrap branch for guint%d in _create_const' % w)
+            continue
+        alts = [e for e in consts if 'const_int' in e.value and gsa.can_hold(e.cond, val)]
+        mods = [(e, modulus(cargs(e).get('value'))) for e in alts if cargs(e).get('value') is not None]
+        if not mods or any(not m_ for e, m_ in mods):
+            r1.fail('TYPE_UINT%d' % w, rel, f.lineno, 'a constant of type guint%d is not reduced modulo 2**%d: %s' % (w, w, [e.value[:80] for e, m_ in mods if not m_][:2]))
+            continue
+        for e, ms in mods:
+            for v in ms:
+                r1.check(v == 2 ** w, 'TYPE_UINT%d' % w, rel, e.line,
+                         'constant of type guint%d is wrapped modulo %d (= 2**%s), not 2**%d: value can lie '
+                         'outside its type' % (w, v, (v.bit_length() - 1) if v > 0 and v & (v - 1) == 0 else '?', w),
+                         detail={'modulus': v})
     r1.exhaustive = True
     # unsigned types whose width is not fixed by their name
-    guarded = set()
-    for n in P.walk_no_nested(f):
-        if isinstance(n, ast.Compare):
-            for side in [n.left] + n.comparators:
-                nm = py.const_name(side, tm) or ''
-                if nm.startswith('TYPE_'):
-                    guarded.add(nm)
+    guarded = set(re.findall(r'ast\.(TYPE_\w+)', ' '.join(CC.atoms())))
     unsigned_other = ['TYPE_USHORT', 'TYPE_UINT', 'TYPE_ULONG', 'TYPE_SIZE', 'TYPE_UINTPTR', 'TYPE_LONG_ULONG']
     missing = [t for t in unsigned_other if t not in guarded]
     r1.check(not missing, 'non-fixed-width unsigned types are wrapped', rel, f.lineno,
@@ -72,86 +72,66 @@ def check(ctx):
 
     # ---- R2 members verbatim, declaration order
     r2 = ctx.rule('R2', 'enum members verbatim (ident, const_int), declaration order, bitfield routing', floor=8)
-    f = py.func('transformer', 'Transformer._create_enum')
+    CE = gsa.summarise(ctx, 'transformer', 'Transformer._create_enum', opaque=('_strip_symbol', '_enum_common_prefix'))
+    f = CE.func
+    esym = CE.P(1)
     member_init = py.func('ast', 'Member.__init__')
-    calls = [c for c in P.calls_in(f) if P.call_name(c) in ('ast.Member',)]
-    if len(calls) != 1:
-        raise AnalysisError('_create_enum: expected exactly one ast.Member(...) construction, found %d' % len(calls))
-    call = calls[0]
-    b = P.bind_call(call, member_init)
-    # loop variable iterating child_list
-    loop = None
-    n = P.parent(call)
-    while n is not None and n is not f:
-        if isinstance(n, ast.For):
-            loop = n
-            break
-        n = P.parent(n)
-    if loop is None or not isinstance(loop.target, ast.Name):
-        raise AnalysisError('_create_enum: Member construction is not inside a for loop over the children')
-    lv = loop.target.id
-    r2.check(P.src(loop.iter).endswith('.child_list') and 'sorted' not in P.src(loop.iter) and 'reversed' not in P.src(loop.iter),
-             'member loop order', rel, loop.lineno,
-             'members are not created by walking child_list in declaration order: %s' % P.src(loop.iter),
-             detail=P.src(loop.iter))
-    r2.check('value' in b and P.src(b['value']) == '%s.const_int' % lv, 'Member.value', rel, call.lineno,
-             'member value is not the declared integer verbatim: %s' % P.src(b.get('value')), detail=P.src(b.get('value')))
-    r2.check('symbol' in b and P.src(b['symbol']) == '%s.ident' % lv, 'Member.symbol', rel, call.lineno,
-             'member c:identifier is not the original C identifier: %s' % P.src(b.get('symbol')))
-    # name: must be <something derived from child.ident>.lower()
-    nm = b.get('name')
-    ok = isinstance(nm, ast.Call) and isinstance(nm.func, ast.Attribute) and nm.func.attr == 'lower' and not nm.args
-    r2.check(ok, 'Member.name lower-cased', rel, call.lineno, 'member name is not lower-cased: %s' % P.src(nm))
-    if ok and isinstance(nm.func.value, ast.Name):
-        defs = [v for t, v, st in P.stores_in(f) if isinstance(t, ast.Name) and t.id == nm.func.value.id]
-        texts = sorted(P.src(v) for v in defs)
-        good = len(defs) == 2 and any(re.match(r'%s\.ident\[\w+:\]$' % lv, t) for t in texts) \
-            and any(t == 'self._strip_symbol(%s)' % lv for t in texts)
-        r2.check(good, 'Member.name derivation', rel, call.lineno,
-                 'member name must be child.ident with the common prefix sliced off, or the namespace-stripped '
-                 'symbol; found %s' % texts, detail=texts)
-        # the slice length must be len(prefix) of the common prefix
-        pl = [v for t, v, st in P.stores_in(f) if isinstance(t, ast.Name) and t.id == 'prefixlen']
-        r2.check(sorted(P.src(v) for v in pl) == ['0', 'len(prefix)'], 'prefix length', rel, f.lineno,
-                 'prefixlen must be len(prefix) or 0, found %s' % [P.src(v) for v in pl])
+    mcalls = [e for e in CE.effects if e.kind == 'call' and e.target == 'ast.Member' and e.vnode is not None]
+    if not mcalls:
+        raise AnalysisError('_create_enum: no ast.Member(...) construction found')
+    CHILD = '%s.base_type.child_list' % esym
+    lvs = set()
+    for e in mcalls:
+        b = P.bind_call(e.vnode, member_init)
+        r2.check(e.loops == (CHILD,), 'member loop order', rel, e.line,
+                 'members are not created by walking child_list in declaration order: loops %s' % (e.loops,), detail=list(e.loops))
+        val, symb, nm = b.get('value'), b.get('symbol'), b.get('name')
+        lv = gsa._unparse(symb).rsplit('.', 1)[0] if symb is not None and gsa._unparse(symb).endswith('.ident') else None
+        lvs.add(lv)
+        r2.check(lv is not None and val is not None and gsa._unparse(val) == '%s.const_int' % lv, 'Member.value', rel, e.line,
+                 'member value is not the declared integer verbatim: %s' % (gsa._unparse(val) if val is not None else None), detail=gsa._unparse(val) if val is not None else None)
+        r2.check(lv is not None, 'Member.symbol', rel, e.line, 'member c:identifier is not the original C identifier: %s' % (gsa._unparse(symb) if symb is not None else None))
+        ok = isinstance(nm, ast.Call) and isinstance(nm.func, ast.Attribute) and nm.func.attr == 'lower' and not nm.args
+        r2.check(ok, 'Member.name lower-cased', rel, e.line, 'member name is not lower-cased: %s' % (gsa._unparse(nm) if nm is not None else None))
+        if ok and lv:
+            t = gsa._unparse(nm.func.value)
+            good = t == 'self._strip_symbol(%s)' % lv or re.match(r'^%s\.ident\[len\(self\._enum_common_prefix\(%s\)\):\]$' % (re.escape(lv), re.escape(esym)), t)
+            r2.check(good, 'Member.name derivation', rel, e.line,
+                     'member name must be child.ident with the common prefix sliced off, or the namespace-stripped symbol; found %s' % t, detail=t)
+            if t.startswith('self._strip_symbol('):
+                r2.check(gsa.impossible(CE, e, [(r'_enum_common_prefix\(', True)]), 'prefix length', rel, e.line, 'the namespace-stripped name is used although a common prefix exists')
+            else:
+                r2.check(gsa.impossible(CE, e, [(r'_enum_common_prefix\(', False)]), 'prefix length', rel, e.line, 'the prefix slice is used although there is no common prefix')
+    names = sorted(set(('strip' if 'self._strip_symbol(' in e.value else 'slice') for e in mcalls))
+    r2.check(names == ['slice', 'strip'], 'both member-name derivations present', rel, f.lineno, 'member names derived by %s' % names)
     # private members skipped only
-    conts = [n for n in P.walk_no_nested(f) if isinstance(n, ast.Continue)]
-    for c in conts:
-        g = [x.text() for x in P.guards(c, stop=loop) if x.kind in ('if', 'early')]
-        r2.check(g == ['%s.private' % lv], 'member skip condition', rel, c.lineno,
-                 'a member is dropped under a condition other than "private": %s' % g, detail=g)
+    lv = sorted(x for x in lvs if x)[0] if any(lvs) else 'child'
+    made = gsa.cond_any(mcalls)
+    want = gsa.conj(*[gsa.atom(a_) for a_ in gsa.atoms(made) if a_.startswith('@iter:')] + [gsa.neg(gsa.atom('%s.private' % lv))])
+    r2.check(gsa.equiv(made, want), 'member skip condition', rel, f.lineno,
+             'a member is dropped under a condition other than "private": members are created when %s' % gsa.show(made)[:200], detail=gsa.show(made)[:200])
     # appended in order, passed as members=
-    st_call = P.enclosing_stmt(call)
-    listname = None
-    pc = P.parent(call)
-    if isinstance(pc, ast.Call) and isinstance(pc.func, ast.Attribute) and pc.func.attr == 'append' \
-            and isinstance(pc.func.value, ast.Name):
-        listname = pc.func.value.id
-    r2.check(listname is not None, 'members list build', rel, call.lineno,
-             'the constructed Member is not appended to a list: %s' % P.src(st_call))
+    apps = [e for e in CE.effects if e.kind == 'call' and re.match(r'^\w+\.append$', e.target) and e.args and e.args[0].startswith('ast.Member(')]
+    listname = apps[0].target.split('.')[0] if apps else None
+    r2.check(listname is not None and len(apps) == len(mcalls), 'members list build', rel, f.lineno, 'the constructed Member is not appended to a list')
     if listname:
-        other = [c for c in P.calls_in(f) if isinstance(c.func, ast.Attribute) and isinstance(c.func.value, ast.Name)
-                 and c.func.value.id == listname and c.func.attr != 'append']
+        other = [e for e in CE.effects if e.kind == 'call' and e.target.startswith(listname + '.') and not e.target.endswith('.append')]
         inits = [P.src(v) for t, v, s_ in P.stores_in(f) if isinstance(t, ast.Name) and t.id == listname]
         r2.check(not other and inits == ['[]'], 'members list order', rel, f.lineno,
-                 'member list is reordered or re-initialised: %s %s' % ([P.src(c) for c in other], inits))
+                 'member list is reordered or re-initialised: %s %s' % ([e.value for e in other], inits))
     # bitfield routing
-    routed = None
-    for n in P.walk_no_nested(f):
-        if isinstance(n, ast.If) and P.src(n.test).endswith('.is_bitfield') and len(n.body) == 1 and len(n.orelse) == 1 \
-                and isinstance(n.body[0], ast.Assign) and isinstance(n.orelse[0], ast.Assign):
-            a, b_ = n.body[0], n.orelse[0]
-            if P.src(a.targets[0]) == P.src(b_.targets[0]) and P.src(a.value) == 'ast.Bitfield' and P.src(b_.value) == 'ast.Enum':
-                routed = P.src(a.targets[0])
-    r2.check(routed is not None, 'is_bitfield -> ast.Bitfield', rel, f.lineno,
-             'flags-style enumeration is not routed to ast.Bitfield (and plain to ast.Enum)')
-    ctor = [c for c in P.calls_in(f) if routed and P.call_name(c) == routed]
-    okc = False
-    if len(ctor) == 1:
-        bb = P.bind_call(ctor[0], py.func('ast', 'Enum.__init__'))
-        bb2 = P.bind_call(ctor[0], py.func('ast', 'Bitfield.__init__'))
-        okc = P.src(bb.get('members')) == listname and P.src(bb.get('ctype')) == 'symbol.ident' \
-            and P.src(bb2.get('members')) == listname and P.src(bb2.get('ctype')) == 'symbol.ident'
+    BF = r'^%s\.base_type\.is_bitfield$' % re.escape(esym)
+    en = gsa.returns_under(CE, gsa.decide_by([(BF, False)]))
+    bf = gsa.returns_under(CE, gsa.decide_by([(BF, True)]))
+    r2.check(len(en) == 1 and en[0][0].startswith('ast.Enum(') and len(bf) == 1 and bf[0][0].startswith('ast.Bitfield('), 'is_bitfield -> ast.Bitfield', rel, f.lineno,
+             'flags-style enumeration is not routed to ast.Bitfield (and plain to ast.Enum): %s / %s' % ([x[0][:40] for x in en], [x[0][:40] for x in bf]))
+    okc = True
+    for got, cls_ in ((en, 'Enum'), (bf, 'Bitfield')):
+        if len(got) != 1 or not isinstance(got[0][1], ast.Call):
+            okc = False
+            continue
+        bb = P.bind_call(got[0][1], py.func('ast', '%s.__init__' % cls_))
+        okc = okc and bb.get('members') is not None and gsa._unparse(bb.get('members')) == listname and bb.get('ctype') is not None and gsa._unparse(bb.get('ctype')) == '%s.ident' % esym
     r2.check(okc, 'enum construction', rel, f.lineno, 'enum node is not built from the collected members / original ident')
     # ast.Enum / ast.Bitfield keep the list as given
     am = py.mod('ast')
@@ -162,14 +142,16 @@ def check(ctx):
                  'ast.%s does not keep the member list as given: %s' % (cname, st))
     # writer: unsorted member loops, tags
     wm = py.mod('girwriter')
+    from .. import wattr
+    W = wattr.WriterModel(py)
     for fn, tag in (('_write_enum', 'enumeration'), ('_write_bitfield', 'bitfield')):
-        wf = py.func('girwriter', 'GIRWriter.' + fn)
-        loops = [n for n in P.walk_no_nested(wf) if isinstance(n, ast.For) and P.src(n.iter).endswith('.members')]
-        r2.check(len(loops) == 1 and isinstance(loops[0].iter, ast.Attribute), '%s member loop' % fn, wm.rel, wf.lineno,
-                 'members must be written in stored order (no sorting): %s' % [P.src(l.iter) for l in
-                  [n for n in P.walk_no_nested(wf) if isinstance(n, ast.For)]])
-        tags = [py.try_fold(c.args[0], wm) for c in P.calls_in(wf) if P.call_name(c) == 'self.tagcontext' and c.args]
-        r2.check(tags == [tag], '%s element name' % fn, wm.rel, wf.lineno, 'element written is %s, expected %s' % (tags, tag))
+        els = [e for e in W.by_tag().get(tag, [])]
+        r2.check(len(els) >= 1, '%s element name' % fn, wm.rel, 1, 'no <%s> element is written' % tag)
+        for el in els:
+            kids = [c for c in el.children if isinstance(c, wattr.Element) and c.tag == 'member']
+            loops = [l for c in kids for l in (c.repeat or [])[-1:]]
+            r2.check(bool(kids) and all(re.match(r'^\w+\.members$', l) for l in loops) and len(loops) == len(kids), '%s member loop' % fn, wm.rel, el.line,
+                     'members must be written in stored order (no sorting): member elements are written inside loops over %s' % loops, detail=loops)
     # dispatch: Bitfield -> _write_bitfield, Enum -> _write_enum
     wn = py.func('girwriter', 'GIRWriter._write_node')
     disp = {}
@@ -180,137 +162,97 @@ def check(ctx):
              'writer dispatch enum/bitfield', wm.rel, wn.lineno, 'writer dispatch for Enum/Bitfield is %s / %s'
              % (disp.get('ast.Enum'), disp.get('ast.Bitfield')))
     # _write_member attrs
-    wmem = py.func('girwriter', 'GIRWriter._write_member')
-    first = [s for s in wmem.body if isinstance(s, ast.Assign)][0]
-    pairs = {}
-    if isinstance(first.value, ast.List):
-        for e in first.value.elts:
-            if isinstance(e, ast.Tuple) and len(e.elts) == 2:
-                pairs[py.try_fold(e.elts[0], wm)] = P.src(e.elts[1])
-    r2.check(pairs == {'name': 'member.name', 'value': 'str(member.value)', 'c:identifier': 'member.symbol'},
-             '_write_member attributes', wm.rel, wmem.lineno, 'member attributes written: %s' % pairs, detail=pairs)
+    mem = [e for e in W.by_tag().get('member', [])]
+    okm = bool(mem)
+    for el in mem:
+        pairs = dict((r_.key, r_.value) for r_ in el.rows if r_.key in ('name', 'value', 'c:identifier'))
+        base = pairs.get('name', '').rsplit('.', 1)[0]
+        okm = okm and pairs == {'name': '%s.name' % base, 'value': 'str(%s.value)' % base, 'c:identifier': '%s.symbol' % base}
+    r2.check(okm, '_write_member attributes', wm.rel, mem[0].line if mem else 1, 'member attributes written: %s' % [[(r_.key, r_.value) for r_ in el.rows][:4] for el in mem], detail=str(okm))
 
     # ---- R3 constant typing
     r3 = ctx.rule('R3', 'constant typing rows: string/boolean/double/int; private and non-header constants dropped', floor=7)
-    f = py.func('transformer', 'Transformer._create_const')
-    rows = {}
-    for t, v, st in P.stores_in(f):
-        if isinstance(t, ast.Name) and t.id in ('typeval', 'value'):
-            g = tuple(x.text() for x in P.guards(st) if x.kind == 'if')
-            rows.setdefault(g, {})[t.id] = P.src(v)
-    def row_for(atom):
-        for g, d in rows.items():
-            if g and g[-1] == atom:
-                return d
-        return None
-    d = row_for('symbol.const_string is not None')
-    r3.check(d == {'typeval': 'ast.TYPE_STRING', 'value': 'symbol.const_string'}, 'string constant', rel, f.lineno,
-             'string constants must be typed utf8 with the value verbatim: %s' % d, detail=d)
-    d = row_for('symbol.const_boolean is not None')
-    r3.check(d == {'typeval': 'ast.TYPE_BOOLEAN', 'value': "'true' if symbol.const_boolean else 'false'"},
-             'boolean constant', rel, f.lineno, 'boolean constants must be gboolean true/false: %s' % d, detail=d)
-    d = row_for('symbol.const_double is not None')
-    r3.check(d is not None and d.get('typeval') == 'ast.TYPE_DOUBLE' and 'symbol.const_double' in d.get('value', ''),
-             'double constant', rel, f.lineno, 'double constants: %s' % d)
-    # default int rows: typeval from base_type or TYPE_INT, fallback value str(const_int)
-    ivals = [d for g, d in rows.items() if 'symbol.const_int is not None' in g]
-    tv = sorted(x['typeval'] for x in ivals if 'typeval' in x)
-    r3.check(tv == ['ast.TYPE_INT', 'self._create_type_from_base(symbol.base_type)'], 'integer constant type', rel, f.lineno,
+    f = CC.func
+    S_ = re.escape(sym)
+
+    def rows_when(spec):
+        val = gsa.valuation(CC, spec)
+        return [cargs(e) for e in consts if gsa.can_hold(e.cond, val)]
+    BASE = [(r"^%s\.ident\.startswith\('_'\)$" % S_, False), (r'^%s\.source_filename is None$' % S_, False), (r"^%s\.source_filename\.endswith\('\.h'\)$" % S_, True)]
+    NONE = lambda k, v: (r'^%s\.%s is None$' % (S_, k), v)
+    d = rows_when(BASE + [NONE('const_string', False)])
+    r3.check(bool(d) and all(gsa._unparse(x.get('value_type')) == 'ast.TYPE_STRING' and gsa._unparse(x.get('value')) == '%s.const_string' % sym for x in d), 'string constant', rel, f.lineno,
+             'string constants must be typed utf8 with the value verbatim: %s' % [(gsa._unparse(x.get('value_type')), gsa._unparse(x.get('value'))) for x in d][:3])
+    for truth, text in ((True, "'true'"), (False, "'false'")):
+        d = rows_when(BASE + [NONE('const_string', True), NONE('const_int', True), NONE('const_boolean', False), (r'^%s\.const_boolean$' % S_, truth)])
+        r3.check(bool(d) and all(gsa._unparse(x.get('value_type')) == 'ast.TYPE_BOOLEAN' and gsa._unparse(x.get('value')) == text for x in d), 'boolean constant %s' % text, rel, f.lineno,
+                 'boolean constants must be gboolean true/false: %s' % [(gsa._unparse(x.get('value_type')), gsa._unparse(x.get('value'))) for x in d][:3])
+    d = rows_when(BASE + [NONE('const_string', True), NONE('const_int', True), NONE('const_boolean', True), NONE('const_double', False)])
+    r3.check(bool(d) and all(gsa._unparse(x.get('value_type')) == 'ast.TYPE_DOUBLE' and '%s.const_double' % sym in gsa._unparse(x.get('value')) for x in d), 'double constant', rel, f.lineno,
+             'double constants: %s' % [(gsa._unparse(x.get('value_type')), gsa._unparse(x.get('value'))) for x in d][:3])
+    d = rows_when(BASE + [NONE('const_string', True), NONE('const_int', False)])
+    tv = sorted(set(gsa._unparse(x.get('value_type')) for x in d))
+    r3.check(tv == ['ast.TYPE_INT', 'self._create_type_from_base(%s.base_type)' % sym], 'integer constant type', rel, f.lineno,
              'integer constants take the declared base type or gint: %s' % tv, detail=tv)
-    vv = [x['value'] for x in ivals if 'value' in x]
-    r3.check('str(symbol.const_int)' in vv and all('symbol.const_int' in v for v in vv), 'integer constant value', rel, f.lineno,
+    vv = sorted(set(gsa._unparse(x.get('value')) for x in d))
+    r3.check(any(v in ('str(%s.const_int)' % sym, "'%%d' %% (%s.const_int,)" % sym) for v in vv) and all('%s.const_int' % sym in v for v in vv), 'integer constant value', rel, f.lineno,
              'integer constants are written as declared: %s' % vv)
     # early None returns
-    rets = [n for n in P.walk_no_nested(f) if isinstance(n, ast.Return) and (n.value is None or P.src(n.value) == 'None')]
-    gts = [' & '.join(x.text() for x in P.guards(r) if x.kind == 'if') for r in rets]
-    r3.check(any("symbol.ident.startswith('_')" == g for g in gts), 'underscore constants dropped', rel, f.lineno,
-             'no early return for identifiers starting with an underscore: %s' % gts)
-    r3.check(any("endswith('.h')" in g and 'not' in g and 'source_filename is None' in g for g in gts),
-             'non-header constants dropped', rel, f.lineno, 'no early return for constants outside .h files: %s' % gts)
+    got = gsa.returns_under(CC, gsa.decide_by([(r"^%s\.ident\.startswith\('_'\)$" % S_, True)]))
+    r3.check([g[0] for g in got] == ['None'], 'underscore constants dropped', rel, f.lineno, 'identifiers starting with an underscore yield %s' % [g[0][:40] for g in got])
+    got = gsa.returns_under(CC, gsa.decide_by([(r"^%s\.ident\.startswith\('_'\)$" % S_, False), (r'^%s\.source_filename is None$' % S_, False), (r"\.endswith\('\.h'\)$", False)]))
+    got2 = gsa.returns_under(CC, gsa.decide_by([(r"^%s\.ident\.startswith\('_'\)$" % S_, False), (r'^%s\.source_filename is None$' % S_, True)]))
+    r3.check([g[0] for g in got] == ['None'] and [g[0] for g in got2] == ['None'], 'non-header constants dropped', rel, f.lineno, 'constants outside .h files yield %s / %s' % ([g[0][:40] for g in got], [g[0][:40] for g in got2]))
     # construction: Constant(name, typeval, value, symbol.ident)
-    cc = [c for c in P.calls_in(f) if P.call_name(c) == 'ast.Constant']
-    okc = False
-    if len(cc) == 1:
-        bb = P.bind_call(cc[0], py.func('ast', 'Constant.__init__'))
-        okc = {k: P.src(v) for k, v in bb.items()} == {'name': 'name', 'value_type': 'typeval', 'value': 'value', 'ctype': 'symbol.ident'}
-    r3.check(okc, 'Constant construction', rel, f.lineno, 'ast.Constant is not built from (name, typeval, value, symbol.ident)')
+    okc = all(gsa._unparse(cargs(e).get('name')) == 'self._strip_symbol(%s)' % sym and gsa._unparse(cargs(e).get('ctype')) == '%s.ident' % sym for e in consts)
+    r3.check(okc, 'Constant construction', rel, f.lineno, 'ast.Constant is not built from (stripped name, typeval, value, symbol.ident)')
     # writer
-    wc = py.func('girwriter', 'GIRWriter._write_constant')
-    first = [s for s in wc.body if isinstance(s, ast.Assign)][0]
-    pairs = {}
-    if isinstance(first.value, ast.List):
-        for e in first.value.elts:
-            if isinstance(e, ast.Tuple) and len(e.elts) == 2:
-                pairs[py.try_fold(e.elts[0], wm)] = P.src(e.elts[1])
-    r3.check(pairs == {'name': 'constant.name', 'value': 'constant.value', 'c:type': 'constant.ctype'},
-             '_write_constant attributes', wm.rel, wc.lineno, 'constant attributes written: %s' % pairs, detail=pairs)
+    cel = [e for e in W.by_tag().get('constant', [])]
+    okw = bool(cel)
+    for el in cel:
+        pairs = dict((r_.key, r_.value) for r_ in el.rows if r_.key in ('name', 'value', 'c:type'))
+        base = pairs.get('name', '').rsplit('.', 1)[0]
+        okw = okw and pairs == {'name': '%s.name' % base, 'value': '%s.value' % base, 'c:type': '%s.ctype' % base}
+    r3.check(okw, '_write_constant attributes', wm.rel, cel[0].line if cel else 1, 'constant attributes written: %s' % [[(r_.key, r_.value) for r_ in el.rows][:4] for el in cel])
 
     # ---- R4 common prefix is folded over every member, and "no shared word" is recognised
     r4 = ctx.rule('R4', 'common prefix folded over all members; empty prefix recognised; width guards see through aliases; dumped values keep their sign', floor=6)
-    f = py.func('transformer', 'Transformer._enum_common_prefix')
-    loops = [n for n in f.body if isinstance(n, ast.For)]
-    if len(loops) != 1 or not P.src(loops[0].iter).endswith('.child_list') or not isinstance(loops[0].target, ast.Name):
-        raise AnalysisError('_enum_common_prefix: member loop not recognised')
-    lp = loops[0]
-    cv = lp.target.id
-    folds = [(t, v, st) for t, v, st in P.stores_in(lp) if isinstance(t, ast.Name) and isinstance(v, ast.Call) and P.call_name(v) == 'common_prefix']
-    if len(folds) != 1:
-        raise AnalysisError('_enum_common_prefix: prefix = common_prefix(prefix, child.ident) not found')
-    acc = folds[0][0].id
-    gs = [g.text() for g in P.guards(folds[0][2], stop=lp) if g.kind in ('if', 'early')]
-    r4.check(gs == ['not (%s is None)' % acc] and [P.src(a) for a in folds[0][1].args] == [acc, '%s.ident' % cv], 'every member after the first narrows the prefix', rel,
-             folds[0][2].lineno, 'the common prefix is recomputed only when %s: members that happen to start with the text accumulated so far (FOO_MODE_READ / '
-             'FOO_MODE_READWRITE) are skipped and the prefix stops at a non-word boundary' % gs, detail=gs)
-    inits = [P.src(v) for t, v, st in P.stores_in(lp) if isinstance(t, ast.Name) and t.id == acc and not (isinstance(v, ast.Call) and P.call_name(v) == 'common_prefix')]
-    r4.check(inits == ['%s.ident' % cv], 'prefix starts from the first member', rel, lp.lineno, 'initial prefix: %s' % inits)
-    # sentinels the caller tests for
-    sentinels = set()
-    for n in P.walk_no_nested(f):
-        if isinstance(n, ast.Compare) and isinstance(n.left, ast.Name) and n.left.id == acc and len(n.ops) == 1 and isinstance(n.ops[0], ast.Eq):
-            v = py.try_fold(n.comparators[0], tm, default=Ellipsis)
-            if v is not Ellipsis:
-                sentinels.add(v)
-    inner = [n for n in f.body if isinstance(n, ast.FunctionDef) and n.name == 'common_prefix']
+    EP = gsa.summarise(ctx, 'transformer', 'Transformer._enum_common_prefix')
+    f = EP.func
+    CH = '%s.base_type.child_list' % EP.P(1)
+    locs = [e for e in EP.effects if e.kind == 'local' and CH in e.loops]
+    accs = sorted(set(e.target for e in locs))
+    if len(accs) != 1:
+        raise AnalysisError('_enum_common_prefix: member loop with one running prefix not recognised (%s)' % accs)
+    acc = accs[0]
+    firsts = [e for e in locs if re.match(r'^\w+\.ident$', e.value)]
+    updates = [e for e in locs if e not in firsts]
+    L = [gsa.atom(a_) for a_ in EP.atoms() if a_.startswith('@iter:%s#' % CH)]
+    C_ = [gsa.atom(a_) for a_ in EP.atoms() if a_.startswith('@carried:%s#' % acc)]
+    small = [a_ for a_ in EP.atoms() if re.match(r'^len\(list\(.*child_list\)\) < 2$', a_)]
+    ctx_ = gsa.conj(*(L + C_ + [gsa.neg(gsa.atom('%s is None' % acc))] + [gsa.neg(gsa.atom(a_)) for a_ in small]))
+    r4.check(bool(updates) and bool(L) and bool(C_) and gsa.implies(ctx_, gsa.cond_any(updates)), 'every member after the first narrows the prefix', rel, updates[0].line if updates else f.lineno,
+             'the common prefix is not recomputed for every member after the first (updates happen when %s): members that happen to start with the text accumulated so far '
+             '(FOO_MODE_READ / FOO_MODE_READWRITE) are skipped and the prefix stops at a non-word boundary' % [e.when()[-160:] for e in updates][:2], detail=[e.when()[-160:] for e in updates][:3])
+    r4.check(bool(firsts) and all(e.value.endswith('.ident') for e in firsts), 'prefix starts from the first member', rel, f.lineno, 'initial prefix: %s' % [e.value for e in firsts])
+    # two members that differ in their very first word have no common prefix: the function must answer "none"
+    inner = [n for n in f.body if isinstance(n, ast.FunctionDef)]
     if not inner:
-        raise AnalysisError('_enum_common_prefix: nested common_prefix() not found')
-    cp = inner[0]
-    for p_ in ast.walk(cp):
-        for c_ in ast.iter_child_nodes(p_):
-            c_._parent = p_
-    listvar = [t.id for t, v, st in P.stores_in(cp) if isinstance(t, ast.Name) and isinstance(v, ast.List) and not v.elts]
-    mism = [n for n in ast.walk(cp) if isinstance(n, ast.Return) and any(isinstance(g.test, ast.Compare) and isinstance(g.test.ops[0], ast.NotEq) for g in P.guards(n))]
-    for rt in mism:
-        gt = [g.text() for g in P.guards(rt)]
-        nonempty = any(g == 'not (not %s)' % lv_ or g == lv_ for g in gt for lv_ in listvar)
-        if nonempty:
-            r4.ok('mismatch return with shared words', rel, rt.lineno)
-            continue
-        try:
-            val = py.fold(rt.value, tm, dict((lv_, []) for lv_ in listvar))
-        except P.Unfoldable:
-            val = None
-        r4.check(val in sentinels, 'members sharing no word yield the empty prefix', rel, rt.lineno,
-                 'when two members differ in their first word common_prefix() returns %r, but _enum_common_prefix() only recognises %s as "no common prefix": '
-                 'member names lose their first character instead of the namespace prefix' % (val, sorted(map(repr, sentinels))), detail={'returns': val})
+        raise AnalysisError('_enum_common_prefix: nested word-prefix helper not found')
+    listvars = [t.id for n in inner for t, v, st in P.stores_in(n) if isinstance(t, ast.Name) and isinstance(v, ast.List) and not v.elts]
+    spec = [(r'^@', True), (r'^%s is None$' % re.escape(acc), False), (r'^len\(list\(.*child_list\)\) < 2$', False), (r'^\w+ == \w+$', False)] + [(r'^%s$' % re.escape(v_), False) for v_ in listvars]
+    got = gsa.returns_under(EP, gsa.decide_by(spec))
+    vals = sorted(set(g[0] for g in got))
+    r4.check(vals == ['None'], 'members sharing no word yield the empty prefix', rel, f.lineno,
+             'when two members differ in their first word _enum_common_prefix() can return %s instead of None: the helper\'s "nothing in common" result is not the value the caller tests for, '
+             'and member names lose their first character instead of the namespace prefix' % vals, detail=vals)
     # width guards see through aliases
-    f = py.func('transformer', 'Transformer._create_const')
-    guard_vars = set()
-    for n in P.walk_no_nested(f):
-        if isinstance(n, ast.Compare) and isinstance(n.left, ast.Name) and re.match(r'TYPE_UINT\d+$', py.const_name(n.comparators[0], tm) or ''):
-            guard_vars.add(n.left.id)
-    if len(guard_vars) != 1:
-        raise AnalysisError('_create_const: width guards do not test a single variable: %s' % sorted(guard_vars))
-    gv = guard_vars.pop()
-    srcs = [(P.src(v), st) for t, v, st in P.stores_in(f) if isinstance(t, ast.Name) and t.id == gv]
-    ok = False
-    for vtxt, st in srcs:
-        # the value assigned under isinstance(..., ast.Type) must come from self.resolve_aliases(...)
-        if isinstance(st.value, ast.Name):
-            d = [P.src(v) for t, v, s_ in P.stores_in(f) if isinstance(t, ast.Name) and t.id == st.value.id]
-            if any(x.startswith('self.resolve_aliases(') for x in d) and any('isinstance(%s, ast.Type)' % st.value.id == g.text() for g in P.guards(st)):
-                ok = True
-    r4.check(ok, 'unsigned-width guards look at the fully unaliased type', rel, f.lineno,
+    f = CC.func
+    cmp_atoms = [a_ for a_ in CC.atoms() if UEQ.search(a_)]
+    via = [a_ for a_ in cmp_atoms if 'resolve_aliases(' in a_]
+    widths_via = set(int(UEQ.search(a_).group(1) or UEQ.search(a_).group(2)) for a_ in via)
+    r4.check(widths_via == {8, 16, 32, 64}, 'unsigned-width guards look at the fully unaliased type', rel, f.lineno,
              'the type compared with TYPE_UINT<N> is not the result of resolve_aliases(): a constant cast to an alias of an alias of guint32 is not wrapped '
-             '(assignments to %s: %s)' % (gv, [s_ for s_, x in srcs]), detail=[s_ for s_, x in srcs])
+             '(comparisons: %s)' % [a_[:80] for a_ in cmp_atoms][:4], detail=[a_[:80] for a_ in cmp_atoms][:6])
     from . import c12
     c12.printed_value_signedness(ctx, r4)
